@@ -495,12 +495,64 @@ def apply(data, al):
             elif k in ("bind", "local") and lmap and x.get("n") in lmap:
                 x["n"] = lmap[x["n"]]
 
+    def field_ty(adt, variant, name):
+        a = adt_by_path.get(adt)
+        if not a:
+            return None
+        vs = a.get("variants") or []
+        v = next((x for x in vs if x["name"] == variant), None) if variant else (vs[0] if vs else None)
+        if not v:
+            return None
+        return next((fl["ty"] for fl in v.get("fields") or [] if fl["name"] == name), None)
+
+    def deref_ty(t):
+        t = (t or "").strip()
+        m_ = re.match(r"^&(?:'\w+\s+)?(?:mut\s+)?(.*)$", t) or re.match(r"^\*(?:const|mut)\s+(.*)$", t) or re.match(r"^alloc::boxed::Box<(.*)>$", t)
+        return m_.group(1) if m_ else None
+
+    def rewrite_places(m):
+        """field projections of MIR places and field names of aggregates, resolved through the types of the locals"""
+        ltypes = {l_["l"]: l_.get("ty") for l_ in m.get("locals") or [] if isinstance(l_, dict)}
+        st = [m]
+        while st:
+            x = st.pop()
+            if isinstance(x, list):
+                st.extend(v for v in x if isinstance(v, (dict, list)))
+                continue
+            if isinstance(x.get("l"), int) and isinstance(x.get("p"), list):
+                ty, variant = ltypes.get(x["l"]), None
+                for i_, e_ in enumerate(x["p"]):
+                    if not isinstance(e_, str) or ty is None:
+                        break
+                    if e_ == "*":
+                        ty = deref_ty(ty)
+                    elif e_.startswith("@"):
+                        variant = e_[1:]
+                    elif e_.startswith("."):
+                        adt = npath(re.sub(r"<.*$", "", ty.strip()))
+                        fm = fields_by_adt.get(adt)
+                        nm_ = e_[1:]
+                        if fm and nm_ in fm:
+                            nm_ = fm[nm_]
+                            x["p"][i_] = "." + nm_
+                        ty, variant = field_ty(adt, variant, nm_), None
+                    else:
+                        ty = None
+            if x.get("k") == "agg" and isinstance(x.get("fnames"), list):
+                fm = fields_by_adt.get(npath(re.sub(r"<.*$", "", x.get("adt") or "")))
+                if fm:
+                    x["fnames"] = [fm.get(n_, n_) for n_ in x["fnames"]]
+            st.extend(v for v in x.values() if isinstance(v, (dict, list)))
+
     def rewrite_mir(m, lmap):
         if not isinstance(m, dict):
             return
         for nm in m.get("names") or []:
             if isinstance(nm, dict) and nm.get("n") in lmap:
                 nm["n"] = lmap[nm["n"]]
+        if fields_by_adt and m.get("blocks"):
+            rewrite_places(m)
+            return
         if glob_field:
             fr = re.compile(r"\.(" + "|".join(re.escape(n) for n in glob_field) + r")(?!\w)")
             st = [m]
@@ -534,8 +586,7 @@ def apply(data, al):
                 for fl in (lay.get("layout") or {}).get("fields") or []:
                     if fl.get("name") in fm:
                         fl["name"] = fm[fl["name"]]
-        if a["path"].rsplit("::", 1)[-1] in adt_last.values():
-            pass
+    adt_by_path = {npath(a["path"]): a for a in data["adts"]}
     for f in data["fns"]:
         old_raw = al.fn.get(f["path"], f["path"])
         lmap = dict(al.local.get(old_raw) or {})
